@@ -409,7 +409,9 @@ func (c *StructCode) lastFieldCode(field *StructFieldCode, firstField *Opcode) *
 func (c *StructCode) lastAnonymousFieldCode(firstField *Opcode) *Opcode {
 	// firstField is special StructHead operation for anonymous structure.
 	// So, StructHead's next operation is truly struct head operation.
-	for firstField.Op == OpStructHead || firstField.Op == OpStructField {
+	// ( only the heads of embedded structs are stepped over: a first member that holds a struct
+	// under its own name has the same operation, and its members are not members of this struct )
+	for (firstField.Op == OpStructHead || firstField.Op == OpStructField) && firstField.Flags&AnonymousKeyFlags != 0 {
 		firstField = firstField.Next
 	}
 	lastField := firstField
@@ -739,7 +741,7 @@ func (c *StructFieldCode) addStructEndCode(ctx *compileContext, codes Opcodes) O
 	}
 	codes.Last().Next = end
 	code := codes.First()
-	for code.Op == OpStructField || code.Op == OpStructHead {
+	for (code.Op == OpStructField || code.Op == OpStructHead) && code.Flags&AnonymousKeyFlags != 0 {
 		code = code.Next
 	}
 	for code.NextField != nil {
